@@ -430,9 +430,108 @@ def rule_c(ctx, T_i):
     ctx.floor(R + ".axisreduction", 6)
 
 
+M_ORDERED = {"num_voxels", "dimensions", "shape"}          # one entry per matrix axis (rows, columns, pages)
+C_ORDERED = {"origin", "opposite_corner", "_coordinate_of_origin_voxel", "min_coordinate", "max_coordinate"}  # one entry per Cartesian axis (x, y, z)
+
+
+def _letters_kind(fnode, e):
+    """Kind of an indexing string expression: 'M' for matrix letters (ijk / .indexing), 'C' for Cartesian letters (xyz)."""
+    from ..flow import expand
+
+    t = norm(expand(fnode, e))
+    if t.endswith(".indexing") or t.startswith(("'ijk'", "'ij'", "'i'")):
+        return "M"
+    if t.startswith(("'xyz'", "'xy'", "'x'")) or t.endswith(".axes"):
+        return "C"
+    return None
+
+
+def index_kinds(f):
+    """{local name: 'M' | 'C'} for locals that provably hold a matrix-axis position resp. a Cartesian-axis position."""
+    kinds, clash = {}, set()
+
+    def put(name, k):
+        if k is None:
+            return
+        if name in kinds and kinds[name] != k:
+            clash.add(name)
+        kinds[name] = k
+
+    for st in ast.walk(f.node):
+        if isinstance(st, ast.Assign) and len(st.targets) == 1:
+            t, v = st.targets[0], st.value
+            if isinstance(v, ast.Call) and norm(v.func).endswith("interpret_indexing") and len(v.args) == 2 and isinstance(t, ast.Tuple) and t.elts and isinstance(t.elts[0], ast.Name):
+                put(t.elts[0].id, _letters_kind(f.node, v.args[1]))
+            elif isinstance(v, ast.Subscript) and isinstance(v.value, ast.Call) and norm(v.value.func).endswith("interpret_indexing") and len(v.value.args) == 2 \
+                    and norm(v.slice) == "0" and isinstance(t, ast.Name):
+                put(t.id, _letters_kind(f.node, v.value.args[1]))
+            elif isinstance(v, ast.Call) and isinstance(v.func, ast.Attribute) and v.func.attr in ("find", "index") and isinstance(t, ast.Name):
+                put(t.id, _letters_kind(f.node, v.func.value))
+            elif isinstance(t, ast.Name) and isinstance(v, (ast.Name, ast.Attribute, ast.Subscript, ast.Call, ast.BinOp, ast.Constant, ast.IfExp)) and t.id in kinds:
+                clash.add(t.id)  # re-bound to something else
+        elif isinstance(st, ast.For):
+            if isinstance(st.iter, ast.Call) and norm(st.iter.func) == "enumerate" and len(st.iter.args) == 1 and isinstance(st.target, ast.Tuple) and isinstance(st.target.elts[0], ast.Name):
+                put(st.target.elts[0].id, _letters_kind(f.node, st.iter.args[0]))
+            elif isinstance(st.target, ast.Name) and isinstance(st.iter, ast.Call) and norm(st.iter.func) == "range":
+                k = st.target.id
+                used = set()
+                for x in ast.walk(st):
+                    if isinstance(x, ast.Subscript) and isinstance(x.slice, ast.Name) and x.slice.id == k and isinstance(x.value, ast.Constant) and isinstance(x.value.value, str):
+                        used.add("M" if x.value.value.startswith("i") else ("C" if x.value.value.startswith("x") else None))
+                if len(used) == 1 and None not in used:
+                    put(k, used.pop())
+    # a name bound in several ways keeps its kind only if all agree
+    stores = {}
+    for n in ast.walk(f.node):
+        if isinstance(n, ast.Name) and isinstance(n.ctx, ast.Store):
+            stores[n.id] = stores.get(n.id, 0) + 1
+    return {k: v for k, v in kinds.items() if k not in clash}
+
+
+def rule_d(ctx):
+    R = "C20.d"
+    ctx.rule(R, "index kinds are not mixed: a local that holds a matrix-axis position (first result of interpret_indexing(letter, matrix "
+             "indexing), counter of enumerate(matrix indexing), subscript of 'ijk') indexes matrix-ordered tables only (num_voxels, "
+             "dimensions, shape), one that holds a Cartesian position (interpret_indexing(letter, 'xyz'...), 'xyz'.find, subscript of "
+             "'xyz') indexes Cartesian-ordered vectors only (origin, opposite_corner, ...); checked where both kinds are known")
+    m = ctx.model
+    mods = ["darsia.image.image", "darsia.image.coordinatesystem", "darsia.image.arithmetics", "darsia.signals.reduction.dimensionreduction", "darsia.image.patches",
+            "darsia.image.coordinatetransformation"]
+    n = 0
+    for mn in mods:
+        if mn not in m.modules:
+            continue
+        ctx.consult(mn)
+        mod = m.mod(mn)
+        for f in list(mod.funcs.values()) + [g for c in mod.classes.values() for g in c.methods.values()]:
+            kinds = index_kinds(f)
+            if not kinds:
+                continue
+            for x in ast.walk(f.node):
+                if isinstance(x, ast.Subscript) and isinstance(x.slice, ast.Name) and x.slice.id in kinds and isinstance(x.value, ast.Attribute):
+                    cont = x.value.attr
+                    if cont == "shape" and not norm(x.value.value).endswith((".img", "self", "image", "img")):
+                        continue
+                    order = "M" if cont in M_ORDERED else ("C" if cont in C_ORDERED else None)
+                    if order is None:
+                        continue
+                    n += 1
+                    ctx.instance(R)
+                    k = kinds[x.slice.id]
+                    ctx.ob(R, f.qname, f"`{norm(x)}`: a {'matrix' if order == 'M' else 'Cartesian'}-ordered table is indexed with a {'matrix' if order == 'M' else 'Cartesian'} position", k == order,
+                           f"`{x.slice.id}` is a {'matrix-axis' if k == 'M' else 'Cartesian-axis'} position; `{norm(x.value)}` has one entry per {'matrix' if order == 'M' else 'Cartesian'} axis: right only where the two orders coincide", x)
+    ctx.floor(R, 4)
+
+
 def run(ctx):
     T_i, T_m, T_c = extract_tables(ctx)
     ctx.stat("table_rows", len(T_i) + len(T_m) + len(T_c))
     rule_a(ctx, T_i, T_m, T_c)
     rule_b(ctx, T_i)
     rule_c(ctx, T_i)
+    rule_d(ctx)
+    # "the coordinate system agrees with the tables": the maps of CoordinateSystem evaluated column-wise against the table (C01.b)
+    from . import c01
+    from .common import shared
+
+    shared(ctx, "C20.c", c01.rule_b, why="CoordinateSystem.coordinate / voxel are the consumers of the axis table; they must place every axis where the table says")
